@@ -172,3 +172,23 @@ Example C17_layer_nonvacuous :
   exists f, layer_flow LIPv4 d = Ok f /\ f_srcbytes f = [10;0;0;1] /\ f_dstbytes f = [10;0;0;2] /\
             swap_fields LIPv4 d <> d /\ layer_flow LIPv4 (swap_fields LIPv4 d) = Ok (reverse f).
 Proof. eexists. repeat split; try (vm_compute; reflexivity). vm_compute; discriminate. Qed.
+
+(* Whole packets (Ethernet / IPv4|IPv6 / TCP|UDP|SCTP, eager decode): every flow the packet reports
+   is the flow of the corresponding layer constructor applied to that layer's bytes, so the three
+   theorems above (addresses, reversed flow for swapped fields, equal FastHash) hold level by level. *)
+Theorem C17_stack_levels : forall data st, stack_flows data = Ok st ->
+  (forall f, st_link st = Some f -> layer_flow LEthernet data = Ok f) /\
+  (forall f, st_net st = Some f ->
+     layer_flow LIPv4 (skipn 14 data) = Ok f \/ layer_flow LIPv6 (skipn 14 data) = Ok f) /\
+  (forall f, st_tr st = Some f ->
+     exists k payload, In k [LTCP; LUDP; LSCTP] /\ layer_flow k payload = Ok f).
+Proof. exact stack_levels. Qed.
+Print Assumptions C17_stack_levels.
+
+Example C17_stack_nonvacuous :
+  let d := [1;2;3;4;5;6; 7;8;9;10;11;12; 8;0;
+            69;0;0;28; 0;0;0;0; 64;17;0;0; 10;0;0;1; 10;0;0;2;
+            0;53; 4;210; 0;8; 0;0] in
+  exists l n t, stack_flows d = Ok (mkSt (Some l) (Some n) (Some t)) /\
+    f_srcbytes l = [7;8;9;10;11;12] /\ f_dstbytes n = [10;0;0;2] /\ f_srcbytes t = [0;53] /\ f_typ t = EndpointUDPPort.
+Proof. do 3 eexists. split; [vm_compute; reflexivity|]. repeat split; vm_compute; reflexivity. Qed.
